@@ -311,3 +311,52 @@ Fixpoint insert_at (pos : nat) (c : expr) (b : block) : block :=
   | S n, BNil => BCons c BNil
   | S n, BCons h t => BCons h (insert_at n c t)
   end.
+
+(* ---- consistent renaming of locals (closure parameters included), redundant parentheses ---- *)
+Definition ren_params (f : name -> name) (ps : list (name * ty)) : list (name * ty) :=
+  map (fun p => (f (fst p), snd p)) ps.
+
+Fixpoint ren_expr (f : name -> name) (e : expr) : expr :=
+  match e with
+  | ELit t => ELit t
+  | EVar x => EVar (f x)
+  | EParen e' => EParen (ren_expr f e')
+  | ECall g => ECall (ren_expr f g)
+  | EMeth m => EMeth m
+  | EClos ps rt th body => EClos (ren_params f ps) rt th (ren_block f body)
+  | ELet x e' => ELet (f x) (ren_expr f e')
+  | EAssign x e' => EAssign (f x) (ren_expr f e')
+  | EReturn e' => EReturn (ren_expr f e')
+  | EThrow c => EThrow c
+  | EDo body ct handler => EDo (ren_block f body) ct (ren_block f handler)
+  end
+with ren_block (f : name -> name) (b : block) : block :=
+  match b with
+  | BNil => BNil
+  | BCons e b' => BCons (ren_expr f e) (ren_block f b')
+  end.
+
+Definition swap (x y : name) (z : name) : name :=
+  if N.eqb z x then y else if N.eqb z y then x else z.
+
+Fixpoint strip_expr (e : expr) : expr :=
+  match e with
+  | EParen e' => strip_expr e'
+  | ECall g => ECall (strip_expr g)
+  | EClos ps rt th body => EClos ps rt th (strip_block body)
+  | ELet x e' => ELet x (strip_expr e')
+  | EAssign x e' => EAssign x (strip_expr e')
+  | EReturn e' => EReturn (strip_expr e')
+  | EDo body ct handler => EDo (strip_block body) ct (strip_block handler)
+  | _ => e
+  end
+with strip_block (b : block) : block :=
+  match b with
+  | BNil => BNil
+  | BCons e b' => BCons (strip_expr e) (strip_block b')
+  end.
+
+Definition strip_method (m : mdef) : mdef := let '(n, rt, u, b) := m in (n, rt, u, strip_block b).
+
+Definition strip_prog (p : prog) : prog :=
+  mkProg (map strip_method (methods p)) (strip_block (main p)).
